@@ -134,6 +134,11 @@ def r92(ctx):
                 ok = a[0].endswith("tx.lock_time") and "current_height" in a[1] and "MAX_CHAIN_LAG" in a[1] and "+" in a[1]
                 ctx.ob("R9.2", ok, f"{vb.name}/locktime-args", f"is_satisfied_by({[x[:70] for x in a]})", where=f"{vb.file}:{c.line}",
                        sample=[x[:60] for x in a[:2]])
+                # the time bound must be the smallest one: a time-based locktime is then never "satisfied", i.e. refused;
+                # any larger bound lets a far-future timestamp through
+                ctx.ob("R9.2", len(a) > 2 and a[2].endswith("absolute::Time::MIN"), f"{vb.name}/locktime-time-bound",
+                       f"{fn} accepts time-based locktimes up to `{a[2][-40:] if len(a) > 2 else None}`: a sweep locked until a far-future "
+                       f"timestamp is signed", where=f"{vb.file}:{c.line}", sample="time bound = Time::MIN")
                 sat.append((bi, c, vv.result_edges(bi, c, "ok")))
         if fn != "validate_counterparty_htlc_sweep":
             ctx.ob("R9.2", len(sat) == 1, f"{vb.name}/locktime-check", f"{len(sat)} locktime checks", where=f"{vb.file}:{vb.line}")
